@@ -344,6 +344,9 @@ pub struct Session {
     /// (ordinal of spawned task, salsa event) at which to inject a panic.
     pub crashes: Vec<(u64, u64)>,
     pub decisions: Option<Vec<String>>,
+    /// Targeted delay: a task parked at the first point is not scheduled until the main loop has
+    /// passed the second point after that (or nothing else can run, or 400 steps have gone by).
+    pub hold: Option<(String, String)>,
     /// Free-form, property specific (kept in the replay file).
     pub meta: Value,
 }
@@ -362,7 +365,8 @@ impl Session {
     pub fn to_json(&self) -> Value {
         json!({
             "property": self.property, "engine": "lsp-sim", "seed": self.seed, "run": self.run, "hash_seed": self.hash_seed,
-            "knobs": {"concurrency": self.concurrency, "granularity": self.gran.name(), "policy": self.policy, "sequential_client": self.sequential},
+            "knobs": {"concurrency": self.concurrency, "granularity": self.gran.name(), "policy": self.policy, "sequential_client": self.sequential,
+                      "hold": self.hold.as_ref().map(|(a, b)| json!([a, b]))},
             "root": self.root,
             "tree": self.tree,
             "workload": self.ops.iter().map(|p| { let mut j = p.op.to_json(); if !p.cuts.is_empty() { j["cuts"] = json!(p.cuts); } if !p.tags.is_empty() { j["tags"] = json!(p.tags); } j }).collect::<Vec<_>>(),
@@ -391,6 +395,7 @@ impl Session {
             }).collect()).unwrap_or_default(),
             crashes: v["faults"].as_array().map(|a| a.iter().filter(|f| f["kind"] == "crash").map(|f| (f["task"].as_u64().unwrap_or(0), f["at_salsa_event"].as_u64().unwrap_or(0))).collect()).unwrap_or_default(),
             decisions: v["decisions"].as_array().map(|a| a.iter().map(|s| s.as_str().unwrap_or("").to_string()).collect()),
+            hold: v["knobs"]["hold"].as_array().map(|a| (a[0].as_str().unwrap_or("").to_string(), a[1].as_str().unwrap_or("").to_string())),
             meta: v["meta"].clone(),
         }
     }
@@ -609,7 +614,25 @@ pub fn run_session(s: &Session, keep_log: bool) -> History {
             h.deadlock = Some(format!("no quiescence within {MAX_STEPS} steps"));
             break;
         }
-        let threads = st.enabled_threads();
+        let mut threads = st.enabled_threads();
+        if let Some((hold_at, until)) = &s.hold {
+            let now = st.step;
+            let held: Vec<Tid> = threads
+                .iter()
+                .copied()
+                .filter(|t| {
+                    let th = &st.threads[t];
+                    !th.is_main
+                        && matches!(&th.point, Some(p) if p.kind.label() == hold_at)
+                        && st.main_point_steps.get(until.as_str()).copied().unwrap_or(0) <= th.parked_at_step
+                        && now < th.parked_at_step + 400
+                })
+                .collect();
+            if !held.is_empty() && held.len() < threads.len() {
+                threads.retain(|t| !held.contains(t));
+                *h.faults.entry("targeted_stall".into()).or_insert(0) += 1;
+            }
+        }
         let mut labels: Vec<String> = threads.iter().map(|t| st.threads[t].name.clone()).collect();
         // ---- client action
         let mut client_enabled = false;
